@@ -1,0 +1,32 @@
+package server
+
+import (
+	"sync"
+
+	"github.com/cenkalti/rpc2"
+)
+
+// serialCodec serializes the writes of an rpc2.Codec. rpc2 writes requests
+// under a lock of its own but responses under none, and the JSON codec's
+// encoder is not safe for concurrent use: a response written while a request
+// is being written (or the other way around) is a data race on the encoder.
+type serialCodec struct {
+	rpc2.Codec
+	writeMutex sync.Mutex
+}
+
+func newSerialCodec(codec rpc2.Codec) rpc2.Codec {
+	return &serialCodec{Codec: codec}
+}
+
+func (c *serialCodec) WriteRequest(r *rpc2.Request, param interface{}) error {
+	c.writeMutex.Lock()
+	defer c.writeMutex.Unlock()
+	return c.Codec.WriteRequest(r, param)
+}
+
+func (c *serialCodec) WriteResponse(r *rpc2.Response, result interface{}) error {
+	c.writeMutex.Lock()
+	defer c.writeMutex.Unlock()
+	return c.Codec.WriteResponse(r, result)
+}
